@@ -58,4 +58,221 @@ theorem addCds_defs_match {S : Prop} {L : Live} {ever : List AreaT} {r r' : Rec}
     obtain ⟨s, hc, hds, hdef⟩ := (down_defines_iff hg (hin a (inv.liveEver a ha)) d).2 ⟨hdn, h2, h3⟩
     exact ⟨(g', d, s), List.mem_map.2 ⟨(d, s), (mem_downAll g' _ _).2 ⟨a, ha, hc, hds⟩, rfl⟩, hdef, rfl⟩
 
+/-- one `add_<area>` call makes exactly the pairs defining that the spec's replay adds for it -/
+theorem addArea_defs_match {S : Prop} {L : Live} {ever : List AreaT} {r r' : Rec} (inv : InvCore S L ever r)
+    (a : AreaT) (ha : AreaOK a) (hin : KidsInside a) (hstep : addArea r a = .ok r') (x : Nat × Nat) :
+    x ∈ r'.defs ↔ x ∈ r.defs ∨ x ∈ meetPairs L.genes [a] := by
+  obtain ⟨_, hfound⟩ := addArea_ok hstep
+  have f := reg_frame r a
+  have hL : ∀ g, g ∈ within r.genes a.loc false ↔ g ∈ r.genes ∧ containedBy g.loc a.loc = true := by
+    intro g
+    rw [mem_within inv.sorted inv.ok a.loc false ha.1]
+    constructor
+    · rintro ⟨hg, hk⟩
+      exact ⟨hg, by rw [containedBy_eq_spec (gene_le (inv.ok g hg))]; simpa [specKeeps] using hk⟩
+    · rintro ⟨hg, hk⟩
+      exact ⟨hg, by rw [containedBy_eq_spec (gene_le (inv.ok g hg))] at hk; simpa [specKeeps] using hk⟩
+  obtain ⟨r'', hrun, eff⟩ := addAll_eff a (within r.genes a.loc false) (reg r a) (fun g hg => ((hL g).1 hg).2)
+  have : r'' = r' := by
+    unfold addFound at hfound
+    rw [f.genes, hrun] at hfound
+    injection hfound
+  subst this
+  rw [eff.defs, f.defs, mem_meetPairs]
+  apply or_congr Iff.rfl
+  simp only [List.mem_flatMap, List.mem_map, List.mem_singleton, exists_eq_left]
+  constructor
+  · rintro ⟨t, ⟨g, hg, ds, hds, rfl⟩, hdef, rfl⟩
+    obtain ⟨hgr, hc⟩ := (hL g).1 hg
+    obtain ⟨h1, h2, h3⟩ := (down_defines_iff (inv.ok g hgr) hin ds.1).1 ⟨ds.2, hc, hds, hdef⟩
+    exact ⟨ds.1, h1, g, (inv.genesLive g).1 hgr, ⟨h2, h3⟩, rfl⟩
+  · rintro ⟨d, hdn, g, hg, ⟨h2, h3⟩, rfl⟩
+    have hgr := (inv.genesLive g).2 hg
+    obtain ⟨s, hc, hds, hdef⟩ := (down_defines_iff (inv.ok g hgr) hin d).2 ⟨hdn, h2, h3⟩
+    exact ⟨(g, d, s), ⟨g, (hL g).2 ⟨hgr, hc⟩, (d, s), hds, rfl⟩, hdef, rfl⟩
+
+theorem meetPairs_cons (gs : List Gene) (a : AreaT) (rest : List AreaT) (x : Nat × Nat) :
+    x ∈ meetPairs gs (a :: rest) ↔ x ∈ meetPairs gs [a] ∨ x ∈ meetPairs gs rest := by
+  simp [meetPairs]
+
+/-- … and so do the `add_region` calls of a `create_regions` -/
+theorem createRegions_defs_match : ∀ (new : List AreaT) {S : Prop} {L : Live} {ever : List AreaT} {r r' : Rec}, Inv S L ever r →
+    (∀ a ∈ new, AreaOK a ∧ a.kind = .region) → (∀ a ∈ new, KidsInside a) → Lookup.createRegions r new = .ok r' →
+    ∀ x, x ∈ r'.defs ↔ x ∈ r.defs ∨ x ∈ meetPairs L.genes new
+  | [], S, L, ever, r, r', _, _, _, hrun => by
+    simp only [Lookup.createRegions, List.foldlM_nil, pure, Except.pure] at hrun
+    injection hrun with hrun; subst hrun
+    intro x; simp [meetPairs]
+  | a :: rest, S, L, ever, r, r', h, hnew, hin, hrun => by
+    simp only [Lookup.createRegions, List.foldlM_cons, bind, Except.bind] at hrun
+    cases hs : Lookup.addArea r a with
+    | error e => rw [hs] at hrun; cases hrun
+    | ok r1 =>
+      rw [hs] at hrun
+      obtain ⟨hok, hk⟩ := hnew a (by simp)
+      have h1 := h.addArea a hok hs
+      have hg1 : (L.step (.area a)).genes = L.genes := by simp only [Live.step]; cases a.kind <;> rfl
+      have ih := createRegions_defs_match rest h1 (fun x hx => hnew x (by simp [hx])) (fun x hx => hin x (by simp [hx])) hrun
+      intro x
+      rw [ih x, hg1, addArea_defs_match h.core a hok (hin a (by simp)) hs x, meetPairs_cons L.genes a rest x]
+      exact or_assoc
+
+/-- the pairs one call makes defining, according to the spec's replay -/
+def newPairs (l : Live) : Op → List (Nat × Nat)
+  | .cds g => meetPairs [g] l.areas
+  | .area a => meetPairs l.genes [a]
+  | .clearSubs new => if l.regions.isEmpty then [] else meetPairs l.genes new
+  | .clearCands new => if l.regions.isEmpty then [] else meetPairs l.genes new
+  | .clearProtos new => if l.regions.isEmpty then [] else meetPairs l.genes new
+  | _ => []
+
+theorem defsStep_eq (l : Live) (d : List (Nat × Nat)) (op : Op) : defsStep (l, d) op = (l.step op, d ++ newPairs l op) := by
+  cases op <;> simp only [defsStep, newPairs, List.append_nil] <;> split <;> simp
+
+theorem defs_fold (ops : List Op) : ∀ (l : Live) (d : List (Nat × Nat)),
+    (ops.foldl defsStep (l, d)).1 = ops.foldl Live.step l := by
+  induction ops with
+  | nil => intro l d; rfl
+  | cons op ops ih => intro l d; simp only [List.foldl_cons, defsStep_eq, ih]
+
+theorem specDefsAfter_snoc (ops : List Op) (op : Op) (x : Nat × Nat) :
+    x ∈ specDefsAfter (ops ++ [op]) ↔ x ∈ specDefsAfter ops ∨ x ∈ newPairs (liveAfter ops) op := by
+  simp only [specDefsAfter, List.foldl_append, List.foldl_cons, List.foldl_nil]
+  have h1 : (ops.foldl defsStep ({}, [])) = ((ops.foldl defsStep ({}, [])).1, (ops.foldl defsStep ({}, [])).2) := rfl
+  rw [h1, defsStep_eq, defs_fold]
+  simp [liveAfter]
+
+theorem reset_defs_match {S : Prop} {L : Live} {ever : List AreaT} {r r' : Rec} (h : Inv S L ever r) (new : List AreaT)
+    (hnew : ∀ a ∈ new, AreaOK a ∧ a.kind = .region) (hin : ∀ a ∈ new, KidsInside a) (hrun : resetRegions r new = .ok r') (x : Nat × Nat) :
+    x ∈ r'.defs ↔ x ∈ r.defs ∨ x ∈ (if L.regions.isEmpty then [] else meetPairs L.genes new) := by
+  unfold resetRegions at hrun
+  rw [← h.core.regionsEq]
+  cases he : r.regions.isEmpty with
+  | true =>
+    simp only [he, if_true, pure, Except.pure] at hrun ⊢
+    injection hrun with hrun; subst hrun
+    simp
+  | false =>
+    simp only [he, Bool.false_eq_true, if_false] at hrun ⊢
+    exact createRegions_defs_match new h.clearRegions hnew hin hrun x
+
+/-- every call of a `runLoose` history makes exactly the pairs defining that the spec's replay adds for it -/
+theorem stepLoose_defs_match {L : Live} {ever : List AreaT} {r r' : Rec} (h : Inv False L ever r) (op : Op) (hop : OpOK op)
+    (hinE : ∀ a ∈ ever, KidsInside a) (hinK : ∀ a ∈ opAreas op, KidsInside a)
+    (hstep : stepLoose r op = .ok r') (x : Nat × Nat) : x ∈ r'.defs ↔ x ∈ r.defs ∨ x ∈ newPairs L op := by
+  cases op with
+  | cds g => exact addCds_defs_match h.core hinE g hop hstep x
+  | area a => exact addArea_defs_match h.core a hop (hinK a (by simp [opAreas])) hstep x
+  | setCores gid cs =>
+    simp only [stepLoose, pure, Except.pure] at hstep
+    injection hstep with hstep; subst hstep
+    simp [newPairs, setCoresAny]
+  | clearRegions =>
+    simp only [stepLoose, step, pure, Except.pure] at hstep
+    injection hstep with hstep; subst hstep
+    simp [newPairs, clearRegions]
+  | clearSubs new =>
+    have e1 : { r with subs := [] } = dropLists r false false true := by simp [dropLists]
+    simp only [stepLoose, step, e1] at hstep
+    have := reset_defs_match (h.drop false false true) new hop (fun a ha => hinK a (by simpa [opAreas] using ha)) hstep x
+    simpa [newPairs, dropLists, Live.drop] using this
+  | clearCands new =>
+    have e1 : { r with cands := [] } = dropLists r false true false := by simp [dropLists]
+    simp only [stepLoose, step, e1] at hstep
+    have := reset_defs_match (h.drop false true false) new hop (fun a ha => hinK a (by simpa [opAreas] using ha)) hstep x
+    simpa [newPairs, dropLists, Live.drop] using this
+  | clearProtos new =>
+    have e1 : { r with protos := [], cands := [] } = dropLists r true true false := by simp [dropLists]
+    simp only [stepLoose, step, e1] at hstep
+    have := reset_defs_match (h.drop true true false) new hop (fun a ha => hinK a (by simpa [opAreas] using ha)) hstep x
+    simpa [newPairs, dropLists, Live.drop] using this
+  | peekCds =>
+    simp only [stepLoose, step, pure, Except.pure] at hstep
+    injection hstep with hstep; subst hstep
+    have := (InvCore.peekCds (S := False) (L := L) (ever := ever) h.cache).1.defs
+    simp [newPairs, this]
+  | peekArea aid =>
+    simp only [stepLoose, step, pure, Except.pure] at hstep
+    injection hstep with hstep; subst hstep
+    have := (peekArea_spec h.cache aid).1.defs
+    simp [newPairs, this]
+  | byName gid =>
+    obtain ⟨g, _, e⟩ := getByName_ok (r := r) (r' := r') (gid := gid) (by simpa [stepLoose, step] using hstep)
+    subst e; simp [newPairs]
+  | withinRegions =>
+    simp only [stepLoose, step, pure, Except.pure] at hstep
+    injection hstep with hstep; subst hstep
+    simp [newPairs, withinRegions]
+  | hasCds aid gid =>
+    simp only [stepLoose, step, pure, Except.pure] at hstep
+    injection hstep with hstep; subst hstep
+    simp [newPairs, hasCds]
+  | indexOf aid gid =>
+    obtain ⟨i, _, e⟩ := indexOf_ok (r := r) (r' := r') (aid := aid) (gid := gid) (by simpa [stepLoose, step] using hstep)
+    subst e
+    have := (peekRegen_spec h.cache aid).1.defs
+    simp [newPairs, this]
+
+theorem foldlM_defsLoose : ∀ (ops seen : List Op) (r0 r : Rec), Inv False (liveAfter seen) (opsAreas seen) r0 →
+    (∀ x, x ∈ r0.defs ↔ x ∈ specDefsAfter seen) → (∀ op ∈ ops, OpOK op) →
+    (∀ a ∈ opsAreas seen, KidsInside a) → (∀ a ∈ opsAreas ops, KidsInside a) →
+    ops.foldlM stepLoose r0 = .ok r → ∀ x, x ∈ r.defs ↔ x ∈ specDefsAfter (seen ++ ops)
+  | [], seen, r0, r, _, hd, _, _, _, hrun => by
+    simp only [List.foldlM_nil, pure, Except.pure] at hrun
+    injection hrun with hrun
+    subst hrun
+    simpa using hd
+  | op :: ops, seen, r0, r, h, hd, hok, hinS, hinO, hrun => by
+    simp only [List.foldlM_cons, bind, Except.bind] at hrun
+    cases hs : stepLoose r0 op with
+    | error e => rw [hs] at hrun; cases hrun
+    | ok r1 =>
+      rw [hs] at hrun
+      have hop := hok op (by simp)
+      have hinK : ∀ a ∈ opAreas op, KidsInside a := fun a ha => hinO a (by simp [opsAreas, ha])
+      have h1 := h.stepLoose op hop hs
+      rw [← liveAfter_append, ← opsAreas_append] at h1
+      have hd1 : ∀ x, x ∈ r1.defs ↔ x ∈ specDefsAfter (seen ++ [op]) := by
+        intro x
+        rw [stepLoose_defs_match h op hop hinS hinK hs x, specDefsAfter_snoc, hd x]
+      have hinS1 : ∀ a ∈ opsAreas (seen ++ [op]), KidsInside a := by
+        intro a ha
+        rw [opsAreas_append] at ha
+        rcases List.mem_append.1 ha with ha | ha
+        · exact hinS a ha
+        · exact hinK a ha
+      have := foldlM_defsLoose ops (seen ++ [op]) r1 r h1 hd1 (fun o ho => hok o (by simp [ho])) hinS1
+        (fun a ha => hinO a (by simp only [opsAreas, List.flatMap_cons, List.mem_append]; exact Or.inr ha)) hrun
+      simpa using this
+
+/-- the definition sets of a `runLoose` history are exactly what the spec's replay says -/
+theorem runLoose_defs {len : Int} {ops : List Op} {r : Rec} (hok : ∀ op ∈ ops, OpOK op)
+    (hin : ∀ a ∈ opsAreas ops, KidsInside a) (hrun : runLoose len ops = .ok r) (x : Nat × Nat) :
+    x ∈ r.defs ↔ x ∈ specDefsAfter ops := by
+  have := foldlM_defsLoose ops [] { len := len } r (by simpa [liveAfter, opsAreas] using Inv.init False len)
+    (by intro x; simp [specDefsAfter]) hok (by intro a ha; simp [opsAreas] at ha) hin hrun x
+  simpa using this
+
+theorem stepLoose_of_step {r r' : Rec} {op : Op} (h : step r op = .ok r') : stepLoose r op = .ok r' := by
+  cases op with
+  | setCores gid cs =>
+    obtain ⟨_, e⟩ := setCores_ok h
+    subst e; rfl
+  | _ => exact h
+
+theorem foldlM_loose_of_strict : ∀ (ops : List Op) (r0 r : Rec), ops.foldlM step r0 = .ok r → ops.foldlM stepLoose r0 = .ok r
+  | [], _, _, h => h
+  | op :: ops, r0, r, h => by
+    simp only [List.foldlM_cons, bind, Except.bind] at h ⊢
+    cases hs : step r0 op with
+    | error e => rw [hs] at h; cases h
+    | ok r1 =>
+      rw [hs] at h
+      rw [stepLoose_of_step hs]
+      exact foldlM_loose_of_strict ops r1 r h
+
+/-- whatever `run` accepts, `runLoose` does in the same way -/
+theorem runLoose_of_run {len : Int} {ops : List Op} {r : Rec} (h : run len ops = .ok r) : runLoose len ops = .ok r :=
+  foldlM_loose_of_strict ops _ r h
+
 end ASV.Lookup
